@@ -99,6 +99,19 @@ def st_spec(draw, algo, sources=("stub", "stub", "fast")):
 
 
 @st.composite
+def st_acute_spec(draw):
+    """VOGP under acute cones (facet normals with negative entries) with a stub posterior whose boxes are wide relative to the
+    gaps: the regime in which a corner-pair shortcut for 'every point dominated' differs from the full vertex comparison."""
+    cone = draw(st.sampled_from([{"kind": "theta", "deg": 20.0}, {"kind": "theta", "deg": 30.0}, {"kind": "theta", "deg": 45.0},
+                                 {"kind": "theta", "deg": 60.0}, {"kind": "c3d", "type": "acute"}]))
+    spec = draw(gen_runs.st_run_spec("VOGP", allow_Kgtm=False, batch_max=2, source="stub", cone=cone,
+                                     eps=draw(st.sampled_from([0.05, 0.1, 0.2]))))
+    spec["stub"]["cov_scale"] = draw(st.sampled_from([0.3, 1.0, 3.0]))
+    spec["stub"]["rho"] = draw(st.sampled_from([0.7, 0.85, 0.95]))
+    return spec
+
+
+@st.composite
 def st_facetwise_spec(draw):
     """VOGP on a generic (asymmetric) K = m cone with pairs of designs whose facet margins are each just above the
     true slack eps*u* (factors 1.05..2 per facet): the better one must keep the other out of P.  A second instance
@@ -138,5 +151,7 @@ COMPONENTS = [
     Component("vogp_runs", check_run, strategy=lambda: st_spec("VOGP"), quick=220, thorough=8000, rule="VOGP, cones incl. K>m and 3-D, stub and real correlated GP"),
     Component("vogp_facetwise_just_above_slack", check_run, strategy=st_facetwise_spec, quick=200, thorough=6000,
               rule="generic asymmetric K=m cones; design pairs whose facet margins are 1.05..2 x the true slack; a second VOGP instance with another cone built first"),
+    Component("vogp_acute_cones_wide_boxes", check_run, strategy=st_acute_spec, quick=160, thorough=6000,
+              rule="VOGP, acute 2-D (20..60 degrees) and 3-D cones, stub posterior with boxes wide relative to eps, truth at box corners"),
     Component("epal_runs", check_run, strategy=lambda: st_spec("EpsilonPAL"), quick=160, thorough=6000, rule="eps-PAL, m=2..3, stub and real independent GP"),
 ]
